@@ -10,8 +10,8 @@ git -C /repo worktree add --detach $A/repo HEAD >/dev/null 2>&1 || { echo "canno
 cleanup() { git -C /repo worktree remove --force $A/repo >/dev/null 2>&1; rm -rf $A; }
 trap cleanup EXIT
 git -C $A/repo apply "$P" || { echo "PATCH DOES NOT APPLY"; exit 2; }
-cp -r /verif/harness $A/verif/harness; rm -f $A/verif/harness/repo; ln -s $A/repo $A/verif/harness/repo
-cp /verif/known_findings.json $A/verif/
+cp -r ${VERIF_SRC:-/verif}/harness $A/verif/harness; rm -f $A/verif/harness/repo; ln -s $A/repo $A/verif/harness/repo
+cp ${VERIF_SRC:-/verif}/known_findings.json $A/verif/
 export CARGO_NET_OFFLINE=true RUST_BACKTRACE=0 RUST_LIB_BACKTRACE=0 MALLOC_ARENA_MAX=64
 export VERIF_DIR=$A/verif VERIF_REPO=$A/repo
 # seed the scratch target dir with the dependency builds of the live one (saves a minute)
@@ -23,7 +23,7 @@ export VERIF_PLAIN_BIN=$A/target-plain/plain/harness
 case " $* " in *" C14 "*|*" C19 "*|*" C01 "*|*" C15 "*)
   ( cd $A/repo && CARGO_TARGET_DIR=$A/target-repo cargo build --release --offline 2>&1 | grep -E "^error" -A6 | head -20 )
   export VERIF_REAL_BIN=$A/target-repo/release/rustybait
-  if cc -shared -fPIC -O1 -o $A/fastclock.so /verif/tools/fastclock.c -ldl 2>/dev/null; then export VERIF_FASTCLOCK=$A/fastclock.so; fi;;
+  if cc -shared -fPIC -O1 -o $A/fastclock.so ${VERIF_SRC:-/verif}/tools/fastclock.c -ldl 2>/dev/null; then export VERIF_FASTCLOCK=$A/fastclock.so; fi;;
 esac
 for id in "$@"; do
   out=$(cd $A/verif && $A/target-checked/checked/harness $id quick 0 2>&1); rc=$?
